@@ -247,15 +247,28 @@ func (a *Agent) UpdatePeers(ctx context.Context, p pool.Pool) error {
 			lookup[uri.ID()] = uri.RemoteHost()
 		}
 
-		// Mark any non-active peers as invalid. These should be a superset of
-		// the original update.InvalidPeers, so we truncate it first.
-		update.InvalidPeers = update.InvalidPeers[:0]
+		// Mark any non-active peers as invalid, in addition to the peers the
+		// pool declared invalid: those may not be connected anymore, but they
+		// still have to be removed from the trusted set.
+		declared := make(map[string]struct{}, len(update.InvalidPeers))
+		for _, p := range update.InvalidPeers {
+			if uri, err := ethnode.ParseNodeURI(p); err == nil {
+				p = uri.ID()
+			}
+			declared[p] = struct{}{}
+		}
 		for _, p := range peers {
+			peerID := p.EnodeURI()
 			uri, err := ethnode.ParseNodeURI(p.EnodeURI())
 			if err != nil {
 				logger.Printf("Failed to parse peer enode %q: %s", err, p.EnodeURI())
 			} else if remoteAddr, ok := lookup[uri.ID()]; ok && uri.RemoteHost() == remoteAddr {
 				continue // Local peer matching active peer on pool
+			} else {
+				peerID = uri.ID()
+			}
+			if _, ok := declared[peerID]; ok {
+				continue // Already declared invalid by the pool
 			}
 			update.InvalidPeers = append(update.InvalidPeers, p.EnodeURI())
 		}
